@@ -2,6 +2,7 @@ import Prom.Drv.Hist
 import Prom.Drv.Desc
 import Prom.Drv.Vec
 import Prom.Drv.Reg
+import Prom.Drv.Local
 /- Line-protocol driver: one request per line on stdin, one result per line on stdout. -/
 open Prom Prom.Drv
 
@@ -9,12 +10,14 @@ structure DState where
   dummy : Nat := 0
   vec : VecSt := {}
   reg : RegSt := {}
+  loc : LocalSt := {}
 
 def step (st : DState) (line : String) : DState × String :=
   match line.trimAscii.toString.splitOn " " with
   | ["case"] => ({}, "case")
   | "hist" :: args => (st, histHandle args)
   | "desc" :: args => (st, descHandle args)
+  | "local" :: args => let (v, o) := localHandle st.loc args; ({ st with loc := v }, o)
   | "reg" :: args => let (v, o) := regHandle st.reg args; ({ st with reg := v }, o)
   | "vec" :: args => let (v, o) := vecHandle st.vec args; ({ st with vec := v }, o)
   | _ => (st, "bad-op")
